@@ -141,6 +141,11 @@ Definition bump_row (mb : Z) (m : mbox) : mbox :=
   if mb_id m =? mb then mkMbox (mb_id m) (mb_name m) (mb_validity m) (mb_next m + 1) else m.
 Definition bump (s : store) (mb : Z) : store := set_mboxes s (map (bump_row mb) (mboxes s)).
 
+(** UPDATE mailboxes SET uid_next = ? WHERE id = ? *)
+Definition next_row (mb n : Z) (m : mbox) : mbox :=
+  if mb_id m =? mb then mkMbox (mb_id m) (mb_name m) (mb_validity m) n else m.
+Definition set_next (s : store) (mb n : Z) : store := set_mboxes s (map (next_row mb n) (mboxes s)).
+
 (** ghost: log entries for a link (to be) stored in mailbox row [mb] *)
 Definition log_for (s : store) (mb uid gid : Z) : list gentry :=
   match find_id s mb with
